@@ -335,6 +335,7 @@ pub fn engine(rep: &mut Report, focus: &str, n: usize, seed: u64, thorough: bool
     if focus == "C13" {
         c13_ascii_sweep(rep);
         c13_long_ranges(rep, &mut rng, thorough);
+        c13_public_lengths(rep, thorough);
     }
     if focus == "C02" || focus == "C05" {
         crate::scope::deep_attempt_scope(rep, focus, thorough);
@@ -452,6 +453,53 @@ fn look_scope(rep: &mut Report, rng: &mut Rng, focus: &str, thorough: bool) {
                 }
             }
         }
+    }
+}
+
+/// C13, the PUBLIC ASCII entry points (`find_ascii`, `find_iter_ascii`, `find_from_ascii`: the stream above goes through
+/// `backends::find_ascii`) on haystacks whose length, or remaining length from the start offset, sits just above a
+/// power of two (2^8, 2^16, 2^31; thorough: 2^32 - a 4 GiB haystack): any narrowing of a length must not change
+/// the result. Matches at the front, in the middle and at the very end; closed-form expected.
+fn c13_public_lengths(rep: &mut Report, thorough: bool) {
+    let mut sizes: Vec<usize> = vec![(1 << 8) + 2, (1 << 16) + 2, (1 << 16) + 5, (1usize << 31) + 2];
+    if thorough {
+        sizes.push((1usize << 32) + 2);
+        sizes.push((1usize << 32) + 5);
+    }
+    let res = [("needle", ""), ("n(e+)dle", "i"), ("needle$", ""), ("(?<=x)needle|needle", "")];
+    for n in sizes {
+        let mut v = vec![b'x'; n];
+        let put = |v: &mut Vec<u8>, at: usize, s: &[u8]| v[at..at + s.len()].copy_from_slice(s);
+        put(&mut v, 0, b"needle");
+        put(&mut v, 100, b"NEEDLE");
+        put(&mut v, 200, b"needle");
+        let l = v.len();
+        put(&mut v, l - 6, b"needle");
+        let hay = String::from_utf8(v).unwrap();
+        for (p, fl) in res {
+            let re = compile(p, fl, false).unwrap();
+            for start in [0usize, 1, 6, 100, 101, 201, n - 7] {
+                rep.count("public-ascii-lengths");
+                let a: Vec<(usize, usize, usize)> = re.find_from(&hay, start).map(|m| (m.start(), m.end(), m.captures.len())).collect();
+                let b: Vec<(usize, usize, usize)> = re.find_from_ascii(&hay, start).map(|m| (m.start(), m.end(), m.captures.len())).collect();
+                if a != b {
+                    rep.violation("impl-vs-impl:C13", format!("find_from_ascii {:?} vs find_from {:?}", b, a), format!("/{}/{} on a haystack of {} bytes from {}", p, fl, n, start));
+                }
+                if start == 0 {
+                    let x = re.find(&hay).map(|m| m.range());
+                    let y = re.find_ascii(&hay).map(|m| m.range());
+                    let xi = re.find_iter(&hay).count();
+                    let yi = re.find_iter_ascii(&hay).count();
+                    if x != y || xi != yi {
+                        rep.violation("impl-vs-impl:C13", format!("find_ascii {:?} ({} matches) vs find {:?} ({} matches)", y, yi, x, xi), format!("/{}/{} on a haystack of {} bytes", p, fl, n));
+                    }
+                    if x != Some(0..6) && p != "needle$" {
+                        rep.violation("impl-vs-oracle:C13", format!("first match {:?}, expected 0..6", x), format!("/{}/{} on a haystack of {} bytes", p, fl, n));
+                    }
+                }
+            }
+        }
+        rep.case(&format!("public ascii entry points, {} bytes", n), true);
     }
 }
 
